@@ -425,6 +425,7 @@ class Repo(object):
             objflat.inline_generators(tree, lambda name, tree=tree, rel=rel: self._generator_named(tree, rel, name))
             objflat.unmap_loops(tree)
             objflat.unmemoise_locals(tree)
+            objflat.accumulator_to_value(tree)
             if rel in FLATTEN_CLASSES:
                 flattened = objflat.flatten(tree)
             else:
